@@ -35,6 +35,7 @@ type KnownFinding struct {
 	Witness    string `json:"witness"`
 	Status     string `json:"status"` // open | fixed
 	Commit     string `json:"commit,omitempty"`
+	CarveOut   string `json:"carve_out,omitempty"` // spec expression over the unit's parameters: the failing input class
 }
 
 type unitResult struct {
@@ -150,6 +151,37 @@ func cmdCheck(argv []string) int {
 		for _, im := range fc.Implements {
 			if tfc, ok := p.CS.Types[im]; ok && clauseTags(tfc)[*prop] {
 				unitKeys[key] = true
+			}
+		}
+	}
+	// callers of functions whose preconditions carry this property's tag: the obligation
+	// arises at their call sites
+	taggedCallee := map[string]bool{}
+	for key, fc := range p.CS.Funcs {
+		for _, rq := range fc.Requires {
+			if hasTag(rq.Tags, *prop) {
+				taggedCallee[key] = true
+			}
+		}
+	}
+	if len(taggedCallee) > 0 {
+		for key, fn := range p.funcs {
+			for _, b := range fn.Blocks {
+				for _, in := range b.Instrs {
+					if call, ok := in.(ssa.CallInstruction); ok {
+						if callee := call.Common().StaticCallee(); callee != nil && taggedCallee[funcKey(callee)] {
+							root := fn
+							for root.Parent() != nil {
+								root = root.Parent()
+							}
+							if _, has := p.CS.Funcs[funcKey(fn)]; has {
+								unitKeys[key] = true
+							} else {
+								unitKeys[funcKey(root)] = true
+							}
+						}
+					}
+				}
 			}
 		}
 	}
@@ -443,19 +475,32 @@ func cmdCheck(argv []string) int {
 		}
 	}
 	violations := 0
+	coverUndecided := 0
 	knownHit := map[int]bool{}
 	replayDir := filepath.Join(*verif, "replays", *prop)
 	os.RemoveAll(replayDir)
 	for _, o := range failing {
 		if o.IsCover {
-			// vacuity: reported as a broken check, not as a property violation
-			fmt.Printf("VACUOUS property=%s obligation=%q (a precondition/invariant is unsatisfiable or a return is unreachable)\n", *prop, o.Name)
-			violations++
+			// vacuity: reported as a broken check, not as a property violation. Only a definite
+			// `unsat` counts: with quantified facts the solvers often cannot produce a model.
+			if o.Result.Status == "unsat" {
+				if coverExpectedUnreachable(o.Name) {
+					continue
+				}
+				fmt.Printf("VACUOUS property=%s obligation=%q (a precondition/invariant is unsatisfiable or a return is unreachable)\n", *prop, o.Name)
+				violations++
+			} else {
+				coverUndecided++
+			}
 			continue
 		}
 		if ki := matchKnown(known, *prop, o.Name); ki >= 0 {
-			knownHit[ki] = true
-			continue
+			// a listed finding suppresses only its own input class: outside the carve-out the
+			// obligation must still be discharged, otherwise this is a different violation
+			if known[ki].CarveOut == "" || p.holdsOutsideCarveOut(o, known[ki].CarveOut, workdir, longT) {
+				knownHit[ki] = true
+				continue
+			}
 		}
 		violations++
 		os.MkdirAll(replayDir, 0o755)
@@ -481,7 +526,21 @@ func cmdCheck(argv []string) int {
 	}
 	wall := time.Since(t0).Seconds()
 	if !*noEvidence {
-		writeEvidence(p, *prop, *tier, seed, *verif, encs, obs, discharged, byBackend, solverSeconds, violations, known, knownHit, wall)
+		// obligations covered by a listed finding were re-proved outside its carve-out
+		knownObs := 0
+		for _, o := range failing {
+			if ki := matchKnown(known, *prop, o.Name); ki >= 0 && knownHit[ki] && !o.IsCover {
+				knownObs++
+			}
+		}
+		byBackend["proved-outside-known-finding-carve-out"] = knownObs
+		if knownObs == 0 {
+			delete(byBackend, "proved-outside-known-finding-carve-out")
+		}
+		writeEvidence(p, *prop, *tier, seed, *verif, encs, obs, discharged+knownObs, byBackend, solverSeconds, violations, known, knownHit, wall)
+	}
+	if coverUndecided > 0 {
+		fmt.Fprintf(os.Stderr, "note: %d cover queries undecided (no model found within the timeout)\n", coverUndecided)
 	}
 	if *verbose || violations > 0 {
 		fmt.Fprintf(os.Stderr, "%s: %d obligations, %d discharged, %d failing (%d known), %.1fs\n", *prop, len(obs), discharged, len(failing), len(knownHit), wall)
@@ -552,3 +611,61 @@ func (p *Prog) lookupInterfaceMethod(key string) (string, bool) {
 }
 
 var _ = ssa.NaiveForm
+
+// holdsOutsideCarveOut re-proves a refuted obligation under the negation of the carve-out.
+func (p *Prog) holdsOutsideCarveOut(o *Oblig, carve string, workdir string, timeout int) bool {
+	e := o.Enc
+	if e == nil || e.Fn == nil {
+		return false
+	}
+	sx, err := parseSpecExpr(carve)
+	if err != nil {
+		fmt.Fprintf(os.Stderr, "known finding carve-out %q: %v\n", carve, err)
+		return false
+	}
+	bind := map[string]TV{}
+	for _, prm := range e.Fn.Params {
+		bind[prm.Name()] = TV{Val: Val{"p_" + mangle(prm.Name()), p.W.SortOf(prm.Type())}, Ty: prm.Type()}
+	}
+	var spec *SpecFile
+	if e.FC != nil {
+		spec = e.FC.Spec
+	}
+	nf := len(e.facts)
+	ec := &EvalCtx{e: e, st: e.entry, old: e.entry, bind: bind, spec: spec}
+	cv, err := ec.evalBool(sx)
+	if err != nil {
+		fmt.Fprintf(os.Stderr, "known finding carve-out %q: %v\n", carve, err)
+		return false
+	}
+	q := o.queryAllDecls(nf)
+	q = strings.Replace(q, "(check-sat)\n", "(assert "+Not(cv).T+")\n(check-sat)\n", 1)
+	file := filepath.Join(workdir, fmt.Sprintf("carve-%x.smt2", hashStr(o.Name)))
+	res := Solve(q, file, timeout, false, "")
+	return res.Status == "unsat"
+}
+
+// coverExpectedUnreachable: returns that the contracts make unreachable on purpose
+// (defensive error paths whose condition is excluded by a precondition) are listed in
+// /verif/contracts/unreachable.txt, one obligation-name prefix per line.
+var unreachableList []string
+
+func coverExpectedUnreachable(name string) bool {
+	if unreachableList == nil {
+		unreachableList = []string{""}
+		if b, err := os.ReadFile("/verif/contracts/unreachable.txt"); err == nil {
+			for _, l := range strings.Split(string(b), "\n") {
+				l = strings.TrimSpace(l)
+				if l != "" && !strings.HasPrefix(l, "#") {
+					unreachableList = append(unreachableList, l)
+				}
+			}
+		}
+	}
+	for _, p := range unreachableList[1:] {
+		if strings.HasPrefix(name, p) {
+			return true
+		}
+	}
+	return false
+}
